@@ -24,6 +24,8 @@ fn callbacks3() -> Vec<(&'static str, Vec<C>)> {
         ("alloc", vec![logit.clone(), C::Return(b(s("fresh")))]),
         ("nested", vec![C::Return(b(C::Len(b(call("std.to_array", vec![rv("v")])))))]),
         ("index", vec![C::Return(b(rv("i")))]),
+        // function values are truthy
+        ("funcval", vec![C::IfTrue(b(bin(BinOp::Less, rv("i"), int(1))), b(C::Return(b(C::NativeFunction("echo".into()))))), C::Return(b(C::Function("cb".into())))]),
     ]
 }
 
@@ -50,7 +52,7 @@ impl FStdlib {
         (0..=self.max_entries).map(|n| v.pow(n)).sum()
     }
     const KEY_STYLES: u64 = 3;
-    const VARIANTS: u64 = 7; // callback / key-function variants per function (those that take one)
+    const VARIANTS: u64 = 8; // callback / key-function variants per function (those that take one)
     const PATHS: u64 = 3;
 }
 
